@@ -14,6 +14,7 @@ import (
 	"encoding/pem"
 	"fmt"
 	"hash"
+	"net/http"
 	"net/url"
 	"strings"
 	"testing"
@@ -455,6 +456,57 @@ func RunC02(t *testing.T, spec kernel.Spec) *kernel.Outcome {
 			o.Probe("second-client-key-used")
 		}
 		delegVerifier := op.NewJWTProfileVerifier(w.OP.Storage, w.Issuer, time.Hour, time.Second, op.SubjectCheck(func(*oidc.JWTTokenRequest) error { return nil }))
+		// relying parties that take the allowed algorithms from the provider's discovery document
+		// (rp.WithSigningAlgsFromDiscovery): a document served for another issuer name over the same keys advertises, in
+		// turn, the algorithm in use, symmetric ones only, "none" and a symmetric one, and another asymmetric algorithm;
+		// an ID token of that issuer, correctly signed with the published key, is believed exactly when its algorithm
+		// is on the list
+		if !strings.Contains(c.shape, "nokid") {
+			var doc map[string]any
+			if r := rawGet(w, "/.well-known/openid-configuration"); jsonUnmarshal(r.Body, &doc) == nil && doc != nil {
+				otherAlg := "ES384"
+				if string(cur.Alg) == otherAlg {
+					otherAlg = "PS512"
+				}
+				for li, list := range [][]string{{string(cur.Alg)}, {"HS256"}, {"none", "HS512"}, {otherAlg}, {"HS384", otherAlg}, {otherAlg, string(cur.Alg)}} {
+					iss := fmt.Sprintf("https://algs%d.sim", li)
+					d := map[string]any{}
+					for k, v := range doc {
+						d[k] = v
+					}
+					d["issuer"], d["id_token_signing_alg_values_supported"] = iss, list
+					body, _ := json.Marshal(d)
+					w.Net.Hosts[fmt.Sprintf("algs%d.sim", li)] = http.HandlerFunc(func(rw http.ResponseWriter, r *http.Request) {
+						rw.Header().Set("Content-Type", "application/json")
+						rw.Write(body)
+					})
+					party, err := rp.NewRelyingPartyOIDC(context.Background(), iss, client, "secret-"+client, "https://"+client+".sim/callback", []string{"openid"},
+						rp.WithHTTPClient(w.Net.Client("rp-algs", nil, false)), rp.WithSigningAlgsFromDiscovery())
+					if err != nil {
+						o.Logf("rp from discovery %v: %v", list, err)
+						continue
+					}
+					o.Probe("relying-parties-with-algorithms-from-discovery")
+					payload, _ := json.Marshal(map[string]any{"iss": iss, "sub": "u1", "aud": []string{client}, "azp": client, "iat": now.Unix(), "exp": now.Add(time.Hour).Unix(), "auth_time": now.Unix()})
+					tok := signRaw(payload, cur.Alg, cur.Priv, cur.KID)
+					_, verr := rp.VerifyIDToken[*oidc.IDTokenClaims](context.Background(), tok, party.IDTokenVerifier())
+					listed := false
+					for _, a := range list {
+						listed = listed || a == string(cur.Alg)
+					}
+					site := "rp-from-discovery/" + strings.Join(list, "+")
+					if string(cur.Alg) != list[0] && !listed {
+						site = "rp-from-discovery/algorithm-not-advertised"
+					}
+					switch {
+					case verr == nil && !listed:
+						c.viol("algorithm-not-allowed", site, "the provider advertises %v for ID tokens; a token signed with %s (published key %q) was believed by a relying party built with WithSigningAlgsFromDiscovery", list, cur.Alg, cur.KID)
+					case verr != nil && listed:
+						c.viol("genuine-rejected", "rp-from-discovery/advertised", "the provider advertises %v; a correctly signed %s token was rejected: %v", list, cur.Alg, verr)
+					}
+				}
+			}
+		}
 		surfaces := []*genuine{
 			{surface: "rp-id-token", token: s.tokens.IDToken, key: cur.Priv, pub: cur.Pub, alg: cur.Alg, kid: cur.KID, deliver: func(tok string) (bool, string, string) {
 				claims, err := rp.VerifyIDToken[*oidc.IDTokenClaims](context.Background(), tok, idv)
